@@ -365,6 +365,9 @@ fn gen_chain_ops(rng: &mut Rng, out: &mut Emitter, tier: Tier) {
     // ranges
     let fork_at = rng.usize(0, len - 2);
     let fork = build_chain(rng, chain, hs[fork_at].height() + 1, len - fork_at - 1, rotating, Some((&hs[fork_at], &c.sets[fork_at + 1])));
+    // S9: the empty batch (`Ok(VerifiedExtendedHeaders(vec![]))`, utils.rs:69); only `verified` has an
+    // n=0 form (the two range ops need a trusted header)
+    out.op(range_line("verified", &[]), "verified/empty-vec", true);
     for op in ["verify_range", "verify_adjacent_range", "verified"] {
         // honest: trusted i, untrusted i+1..=j  (as one list 0..)
         let i = rng.usize(0, len - 2);
@@ -436,7 +439,8 @@ impl Prop for C02 {
          validators hash, trusted next-validators hash, trusted hash) on an adjacent and on a non-adjacent pair; non-adjacent untrusted commits \
          crafted against the trusted set at the exact 1/3 boundary and one validator above, with strangers, forged signatures, double votes, \
          missing signatures; verify_range / verify_adjacent_range / VerifiedExtendedHeaders::try_from on honest sub-ranges, empty ranges, first \
-         element not adjacent, skipped height, reordered, duplicated, forks spliced in from any height (matching and mismatching parent), \
+         element not adjacent, skipped height, reordered, duplicated, the empty Vec (try_from only; every `verified` op also runs the slice constructor \
+         and compares verdict and content), forks spliced in from any height (matching and mismatching parent), \
          perturbed middle element.  Non-trivial = all generated cases (reordering that swaps an element with itself excluded); distinct = distinct (op, result) lines."
     }
     fn gen_ops(&mut self, rng: &mut Rng, tier: Tier, out: &mut Emitter) {
@@ -483,7 +487,22 @@ impl Prop for C02 {
                 let r = match op {
                     "verify_range" => hs[0].verify_range(&hs[1..]),
                     "verify_adjacent_range" => hs[0].verify_adjacent_range(&hs[1..]),
-                    _ => VerifiedExtendedHeaders::try_from(hs).map(|_| ()),
+                    _ => {
+                        // S9: the slice constructor (`TryFrom<&[ExtendedHeader]>`, utils.rs:28) must give the
+                        // same verdict and the same content as the `Vec` one; a difference changes the
+                        // result line, which the model then contradicts
+                        let via_slice = VerifiedExtendedHeaders::try_from(&hs[..]);
+                        let via_vec = VerifiedExtendedHeaders::try_from(hs.clone());
+                        let same = match (&via_slice, &via_vec) {
+                            (Ok(a), Ok(b)) => a.as_ref() == b.as_ref() && b.as_ref() == &hs[..],
+                            (Err(a), Err(b)) => err_kind(a) == err_kind(b),
+                            _ => false,
+                        };
+                        if !same {
+                            return "constructors-disagree".into();
+                        }
+                        via_vec.map(|_| ())
+                    }
                 };
                 fin(r, &bits, &ibits)
             }
